@@ -34,6 +34,8 @@ def obligations():
         Obl("C20.save.passes_flag", "xh", "harness.c20", "save_passes_flag", ["mdtraj.core.trajectory.Trajectory.save", "mdtraj.core.trajectory.Trajectory.save_*"],
             "all 19 extensions of Trajectory.save x force in {F,T} x 1 or 3 frames",
             "save(path, force_overwrite=f) constructs the format's file class with mode 'w' and exactly that flag, on exactly that path (numbered paths for multi-frame restarts)", 240),
+        Obl("C20.save.positional_flag", "xh", "harness.c20", "save_positional_flag", ["mdtraj.core.trajectory.Trajectory.save_<fmt> (14 savers)"], "every saver called as save_<fmt>(name, force) with the flag POSITIONAL",
+            "the second positional parameter (third for save_hdf5) is force_overwrite and reaches the file class unchanged", 200),
         Obl("C20.save.restart_numbered", "xh", "harness.c20", "save_restart_no_clobber", ["mdtraj.core.trajectory.Trajectory.save_amberrst7", "mdtraj.core.trajectory.Trajectory.save_netcdfrst"],
             "2-3 frames, each numbered file independently existing or not, force_overwrite=False",
             "no numbered restart file that exists is ever opened for writing; raises iff one exists", 120),
